@@ -5,6 +5,7 @@ import PhysisModel.Model.C18Stm
 import PhysisModel.Model.C18Avfx
 import PhysisModel.Model.C18Dic
 import PhysisModel.Model.C18Lgb
+import PhysisModel.Model.C18Havok
 namespace Physis.Driver.C18Pbc
 open Physis Physis.Proto Physis.A Physis.Driver.C18
 
@@ -20,7 +21,7 @@ def handle? (f : List String) : Option String :=
   match f with
   | ["stm", h] => some (asset C18Stm.fromExisting h)
   | ["avfx", h] => some (asset C18Avfx.fromExisting h)
-  | ["sklb", h] => some (anyOk h)
+  | ["sklb", h] => some (asset C18Havok.fromExisting h)
   | ["lgb", h] => some (asset C18Lgb.fromExisting h)
   | ["dic", h] => some (dic h)
   | _ => none
